@@ -4,30 +4,35 @@ PROP = {'engine': 'sup',
  'level': 'exploration',
  'quick': {'checks': 300, 'shards': 8, 'timeout': 600},
  'thorough': {'checks': 2400, 'shards': 12, 'timeout': 2400},
- 'rule': 'rapid draws 1-8 processes, each a `/bin/sh -c <script>` built from a grammar: TERM disposition (default | trap \'exit n\' | ignored), 0-3 '
-         'background `sleep 100` children whose pids go into a marker file, an end (exit n | kill -s SIG $$ with SIG in KILL SEGV TERM ABRT USR1 BUS FPE | '
-         'endless loop / wait), an optional 10-80 ms sleep before the end; and an order of operations on a fresh LocalSupervisor: Exec, Terminate, Kill '
-         'with the deadline 2 ms-5 s in the future, Kill with the deadline in the past, wait for the exit event, pauses, Terminate/Kill of unknown names and '
-         'of names not started yet; per-process orders are merged at random and cut into steps that run one by one or as concurrent batches released by a '
-         'barrier (all Execs together, storms of 2-5 Kill/Terminate on one process). Oracle: one consumer drains the events channel; exactly one event per '
-         'started name (5 s for the first, 100 ms more for duplicates), none for other names, exactly one of exit status / signal, value in the set allowed by '
-         'the script text and the signals that were issued before the event was received (singleton when nothing raced); Kill == nil => pid dead or zombie in '
-         '/proc/<pid>/stat at the moment of return (pid reuse guarded by start time and parent pid) and all recorded children dead within 2 s; Kill after the '
-         'event was received => nil; Kill/Terminate of unknown or not yet started names => error; Kill with a past deadline on a process that cannot have ended '
-         '=> error; an error from Kill never before its deadline and never with a deadline >= 1 s; Terminate returns within 500 ms (also for TERM-ignoring '
-         'processes) and a process that got TERM while alive and not ignoring it produces its event without being killed; no child of a loop-ending process '
-         'survives the case. Non-trivial: >=2 concurrent operations on the same process, or a started process with children, or one that ignores TERM. '
-         'Distinct = distinct case hash.',
+ 'rule': "rapid draws 1-8 processes, each a `/bin/sh -c <script>` built from a grammar: TERM disposition (default | trap 'exit n' | ignored), 0-3 "
+         'background `sleep 100` children whose pids go into a marker file, an end (exit n | kill -s SIG $$ with SIG in KILL SEGV TERM ABRT USR1 BUS '
+         'FPE | endless loop / wait), an optional 10-80 ms sleep before the end; and an order of operations on a fresh LocalSupervisor: Exec, '
+         'Terminate, Kill with the deadline 2 ms-5 s in the future, Kill with the deadline in the past, wait for the exit event, pauses, '
+         'Terminate/Kill of unknown names and of names not started yet; per-process orders are merged at random and cut into steps that run one by '
+         'one or as concurrent batches released by a barrier (all Execs together, storms of 2-5 Kill/Terminate on one process). Oracle: one consumer '
+         'drains the events channel; exactly one event per started name (5 s for the first, 100 ms more for duplicates), none for other names, '
+         'exactly one of exit status / signal, value in the set allowed by the script text and the signals that were issued before the event was '
+         'received (singleton when nothing raced); Kill == nil => pid dead or zombie in /proc/<pid>/stat at the moment of return (pid reuse guarded '
+         'by start time and parent pid) and all recorded children dead within 2 s; Kill after the event was received => nil; Kill/Terminate of '
+         'unknown or not yet started names => error; Kill with a past deadline on a process that cannot have ended => error; an error from Kill '
+         'never before its deadline and never with a deadline >= 1 s; Terminate returns within 500 ms (also for TERM-ignoring processes) and a '
+         'process that got TERM while alive and not ignoring it produces its event without being killed; no child of a loop-ending process survives '
+         'the case. Non-trivial: >=2 concurrent operations on the same process, or a started process with children, or one that ignores TERM. '
+         'Distinct = distinct case hash. Later addition: a third of the processes hand plain io.Writers (not files) to Exec, as the emulator does '
+         'for logs, so that os/exec copies through a pipe which forked children inherit; a leader that leaves children behind leaves them holding '
+         "that pipe for 250-600 ms and the status reported must still be the leader's.",
  'health': {'batch': 0.2, 'conc:same-process': 0.1, 'op:term': 0.3, 'op:kill': 0.3, 'op:killpast': 0.1},
  'assumptions': ['/bin/sh is dash and `sleep` accepts fractions; /proc is mounted; the children run in the pid namespace of the test process',
-                 'a process that was sent SIGKILL or that ends on its own is reported within 5 s; a duplicate event would follow its first within 100 ms',
+                 'a process that was sent SIGKILL or that ends on its own is reported within 5 s; a duplicate event would follow its first within '
+                 '100 ms',
                  'TERM, SEGV, ABRT, USR1, BUS, FPE are not ignored in the test process (checked at start; otherwise the run is inconclusive)',
-                 'the once-per-process probe finds started processes in a process group of their own; otherwise every case reports C19/group/shared-with-caller '
-                 'and no group signal is issued (it would hit the test process itself)'],
- 'level_text': 'random search over real processes: generated shell behaviours and operation orders/concurrent batches against the real LocalSupervisor, judged '
-               'against ground truth from the script text, marker files and /proc. Exploration only.',
- 'level_note': 'children of a killed group are given 2 s to disappear after Kill returned (the leader is checked at the moment of return); orphans that a '
-               'self-exited leader left in its group are only recorded as an observation (label obs:*; VERIF_C19_STRICT_ORPHANS=1 turns it into a violation); '
-               'uninterruptible processes, stdout/stderr pipes held open by grandchildren (writers are nil) and the -race build (Exec writes '
-               'freezeThawCycleStart without a lock) are not covered',
- 'technique': 'property-based testing (rapid) over real OS processes: script grammar x operation orders x concurrent batches, oracle from script text, /proc and marker files'}
+                 'the once-per-process probe finds started processes in a process group of their own; otherwise every case reports '
+                 'C19/group/shared-with-caller and no group signal is issued (it would hit the test process itself)'],
+ 'level_text': 'random search over real processes: generated shell behaviours and operation orders/concurrent batches against the real '
+               'LocalSupervisor, judged against ground truth from the script text, marker files and /proc. Exploration only.',
+ 'level_note': 'children of a killed group are given 2 s to disappear after Kill returned (the leader is checked at the moment of return); orphans '
+               'that a self-exited leader left in its group are only recorded as an observation (label obs:*; VERIF_C19_STRICT_ORPHANS=1 turns it '
+               'into a violation); uninterruptible processes, stdout/stderr pipes held open by grandchildren (writers are nil) and the -race build '
+               '(Exec writes freezeThawCycleStart without a lock) are not covered',
+ 'technique': 'property-based testing (rapid) over real OS processes: script grammar x operation orders x concurrent batches, oracle from script '
+              'text, /proc and marker files'}
